@@ -7,6 +7,7 @@ CONSTANTS
   WordLens <- WordLensQ
   DataLenSeqs <- DataLenSeqsQ
   Versions <- VersionsAll
+  Crudes <- CrudesAll
   Fixups = TRUE
   CorruptAll = TRUE
   Emit = TRUE
